@@ -1959,3 +1959,135 @@ example : evalUnmatched ⟨"f(a, g(b), c)".toList.map (fun c => [c]), 11, true, 
 example : evalUnmatched ⟨"a \\) b)".toList.map (fun c => [c]), 0, true, false, []⟩ ['('] [')'] true = .on 6 := by decide
 
 end Vicut.DelimThms
+
+/-! ## Bracket text objects `i(` `a(` `i[` `a]` `i{` `a}` `i<` `a>` (`text_obj_delim`) -/
+namespace Vicut.DelimThms
+open Vicut Vicut.Delim
+
+/-- the pair scan answers with an unescaped opener and a later unescaped closer, both among the positions scanned -/
+theorem scanPair_sound (gs : List Gr) (o c : Gr) :
+    ∀ (ps : List Nat) (oc : Nat) (st : Option Nat) (r : Nat × Nat),
+      ps.Pairwise (· < ·) →
+      (∀ a, st = some a → gs[a]? = some o ∧ escaped gs a = false ∧ ∀ i ∈ ps, a < i) →
+      scanPair gs o c ps oc st = some r →
+      gs[r.1]? = some o ∧ escaped gs r.1 = false ∧ gs[r.2]? = some c ∧ escaped gs r.2 = false ∧
+        r.1 < r.2 ∧ r.2 ∈ ps := by
+  intro ps
+  induction ps with
+  | nil => intro oc st r _ _ h; simp [scanPair] at h
+  | cons p rest ih =>
+    intro oc st r hp hst h
+    have hp' : rest.Pairwise (· < ·) := (List.pairwise_cons.mp hp).2
+    have hlt : ∀ i ∈ rest, p < i := (List.pairwise_cons.mp hp).1
+    have hst' : ∀ a, st = some a → gs[a]? = some o ∧ escaped gs a = false ∧ ∀ i ∈ rest, a < i := by
+      intro a ha
+      obtain ⟨x, y, z⟩ := hst a ha
+      exact ⟨x, y, fun i hi => z i (List.mem_cons_of_mem _ hi)⟩
+    have lift : ∀ {r : Nat × Nat}, (gs[r.1]? = some o ∧ escaped gs r.1 = false ∧ gs[r.2]? = some c ∧ escaped gs r.2 = false ∧
+        r.1 < r.2 ∧ r.2 ∈ rest) → (gs[r.1]? = some o ∧ escaped gs r.1 = false ∧ gs[r.2]? = some c ∧ escaped gs r.2 = false ∧
+        r.1 < r.2 ∧ r.2 ∈ p :: rest) := by
+      intro r ⟨a1, a2, a3, a4, a5, a6⟩
+      exact ⟨a1, a2, a3, a4, a5, List.mem_cons_of_mem _ a6⟩
+    unfold scanPair at h
+    by_cases he : escaped gs p = true
+    · simp only [he, if_true] at h
+      exact lift (ih oc st r hp' hst' h)
+    · simp only [he] at h
+      cases hg : gs[p]? with
+      | none => simp [hg] at h
+      | some g =>
+        simp only [hg] at h
+        by_cases h1 : g = o
+        · simp only [h1, if_true] at h
+          refine lift (ih _ _ r hp' ?_ h)
+          intro a ha
+          by_cases h0 : oc = 0
+          · simp only [h0, if_true] at ha
+            cases ha
+            exact ⟨by rw [hg, h1], by simpa using he, hlt⟩
+          · simp only [h0, if_false] at ha
+            exact hst' a ha
+        · simp only [h1, if_false] at h
+          by_cases h2 : g = c
+          · simp only [h2, if_true] at h
+            by_cases h3 : oc = 1
+            · simp only [h3, if_true] at h
+              cases hs : st with
+              | none => simp [hs] at h
+              | some a =>
+                simp [hs] at h
+                cases h
+                obtain ⟨x, y, z⟩ := hst a hs
+                exact ⟨x, y, by rw [hg, h2], by simpa using he, z p List.mem_cons_self, List.mem_cons_self⟩
+            · simp only [h3, if_false] at h
+              exact lift (ih _ _ r hp' hst' h)
+          · simp only [h2, if_false] at h
+            exact lift (ih _ _ r hp' hst' h)
+
+theorem extendWs_ge (s : MS) (eol : Nat) : ∀ f e, e ≤ extendWs s eol f e := by
+  intro f
+  induction f with
+  | zero => intro e; simp [extendWs]
+  | succ f ih =>
+    intro e
+    unfold extendWs
+    split
+    · have := ih (e + 1); omega
+    · omega
+
+theorem extendWs_le (s : MS) (eol : Nat) : ∀ f e, e ≤ s.max → extendWs s eol f e ≤ s.max := by
+  intro f
+  induction f with
+  | zero => intro e h; simpa [extendWs] using h
+  | succ f ih =>
+    intro e h
+    unfold extendWs
+    split
+    · rename_i hc
+      simp at hc
+      exact ih (e + 1) (by omega)
+    · exact h
+
+/-- the pair `i(` / `a(` work on: an unescaped opener and a later unescaped closer of the kind asked for -/
+theorem textObjDelim_pair (s : MS) (o c : Gr) (around : Bool) (a b : Nat)
+    (h : textObjDelim s o c around = some (a, b)) :
+    ∃ st e, s.gs[st]? = some o ∧ escaped s.gs st = false ∧ s.gs[e]? = some c ∧ escaped s.gs e = false ∧ st < e ∧
+      (around = false → a = st + 1 ∧ b = e) ∧
+      (around = true → a = st ∧ e + 1 ≤ b ∧ b ≤ s.max) := by
+  unfold textObjDelim at h
+  simp only [Option.map_eq_some_iff] at h
+  obtain ⟨⟨st, e⟩, hpair, hr⟩ := h
+  have key : s.gs[st]? = some o ∧ escaped s.gs st = false ∧ s.gs[e]? = some c ∧ escaped s.gs e = false ∧ st < e := by
+    split at hpair
+    · rename_i st' hst
+      simp only [Option.map_eq_some_iff] at hpair
+      obtain ⟨e', he', hq⟩ := hpair
+      cases hq
+      obtain ⟨_, x, y⟩ := scanUnmatched_sound _ _ _ _ _ _ hst
+      obtain ⟨m, x', y'⟩ := scanUnmatched_sound _ _ _ _ _ _ he'
+      simp [List.mem_range'] at m
+      exact ⟨x, y, x', y', by omega⟩
+    · obtain ⟨x1, x2, x3, x4, x5, _⟩ := scanPair_sound s.gs o c _ 0 none (st, e)
+        (by simp [List.pairwise_lt_range']) (by intro a ha; cases ha) hpair
+      exact ⟨x1, x2, x3, x4, x5⟩
+  refine ⟨st, e, key.1, key.2.1, key.2.2.1, key.2.2.2.1, key.2.2.2.2, ?_, ?_⟩
+  · intro ha
+    simp [ha] at hr
+    omega
+  · intro ha
+    simp [ha] at hr
+    have hlt : e < s.gs.length := (List.getElem?_eq_some_iff.mp key.2.2.1).1
+    have h1 := extendWs_ge s s.eol (s.eol - (e + 1)) (e + 1)
+    have h2 := extendWs_le s s.eol (s.eol - (e + 1)) (e + 1) (by show e + 1 ≤ s.gs.length; omega)
+    omega
+
+/-- `f(a, g(b), c)`: inside the outer pair from `a`; the inner pair from `b`; the first pair after the cursor from `f` -/
+example : evalTextObjDelim ⟨"f(a, g(b), c) z".toList.map (fun c => [c]), 2, true, false, []⟩ ['('] [')'] false = .exclusive 2 12 := by decide
+example : evalTextObjDelim ⟨"f(a, g(b), c) z".toList.map (fun c => [c]), 7, true, false, []⟩ ['('] [')'] false = .exclusive 7 8 := by decide
+example : evalTextObjDelim ⟨"f(a, g(b), c) z".toList.map (fun c => [c]), 0, true, false, []⟩ ['('] [')'] false = .exclusive 2 12 := by decide
+/-- `a(` takes the blanks after the closer -/
+example : evalTextObjDelim ⟨"f(a)  z".toList.map (fun c => [c]), 2, true, false, [false, false, false, false, true, true, false]⟩ ['('] [')'] true = .exclusive 1 6 := by decide
+/-- no pair: the object fails -/
+example : evalTextObjDelim ⟨"a) b(".toList.map (fun c => [c]), 2, true, false, []⟩ ['('] [')'] false = .null := by decide
+
+end Vicut.DelimThms
